@@ -35,7 +35,8 @@ def consume(run, results, kinds, pid):
                  'byte': f.get('byte'), 'bytes': f.get('bytes'), 'parts': f.get('parts'), 'next_byte': f.get('next_byte'), 'what': f['what'], 'detail': f['detail'], 'ins': f.get('ins', ''), 'abs_code': f.get('abs_code'),
                  'pre': f['pre'], 'replay': f['replay'], 'cfg_on': f.get('cfg_on', []),
                  'null_strs_with_default': f.get('null_strs_with_default', []), 'has_raw': f.get('has_raw', False),
-                 'shadowing': f.get('shadowing'), 'source': f.get('source'), 'end': f.get('end'), 'ref_used_end_pattern': f.get('ref_used_end_pattern')}
+                 'shadowing': f.get('shadowing'), 'source': f.get('source'), 'end': f.get('end'), 'ref_used_end_pattern': f.get('ref_used_end_pattern'),
+                 'ref_skipped_tail_optional': f.get('ref_skipped_tail_optional'), 'ref_code': f.get('ref_code'), 'mach_code': f.get('mach_code')}
             rep = f['replay'].get('reproduced')
             w['reach'] = f.get('reach')
             if rep == 'unreached':
